@@ -1,11 +1,12 @@
 """C34 implementation side: generated functions wrapped by om.func_api into ExplicitFuncComp / ImplicitFuncComp
 and as compute_primal of JaxExplicitComponent / JaxImplicitComponent; outputs (residuals) and the linearized
-jacobian with and without sparsity colouring.  Oracle: the function itself and its exact derivative evaluated
-with float dual numbers on the expression tree."""
+jacobian with and without sparsity colouring, for scalar / 1-D / multi-dimensional declared shapes, sparse
+(rows/cols) declared partials of the jax components, both derivative directions.  Oracle: the function itself and
+its exact derivative evaluated with float dual numbers on the expression tree."""
+import importlib
 import os
 import sys
 import warnings
-from fractions import Fraction
 
 import numpy as np
 
@@ -30,28 +31,55 @@ TOL = 1e-9
 _NMOD = 0
 
 
+def size(shape):
+    return int(np.prod(shape)) if len(shape) else 1
+
+
+def elem_refs(name, shape):
+    if len(shape) == 0:
+        return [name]
+    return ['%s[%s]' % (name, ', '.join(str(i) for i in idx)) for idx in np.ndindex(*shape)]
+
+
 def layout(c):
-    """names of the flat environment entries as Python expressions, and (name, size, offset) of the variables"""
+    """Python references of the flat environment entries, and (name, shape, offset) of inputs then states"""
     names, vars_, o = [], [], 0
-    for name, size in c['invars'] + c.get('states', []):
-        vars_.append((name, size, o))
-        names += ['%s[%d]' % (name, k) for k in range(size)]
-        o += size
+    for name, shape in c['invars'] + c.get('states', []):
+        vars_.append((name, tuple(shape), o))
+        names += elem_refs(name, tuple(shape))
+        o += size(shape)
     return names, vars_
 
 
 def source(c, mod, fname='f', self_arg=False):
     names, vars_ = layout(c)
-    args = [n for n, _, _ in vars_]
+    nin = len(c['invars'])
+    args = [n for n, _, _ in vars_[:nin]]
+    states = [n for n, _, _ in vars_[nin:]]
+    if c.get('sig_order'):
+        states = [states[k] for k in c['sig_order']]      # states in the signature in another order
+    args += states
     if self_arg:
         args = ['self'] + args
     lines = ['def %s(%s):' % (fname, ', '.join(args))]
     rets = []
-    for k, (oname, elems) in enumerate(c['outs']):
-        lines.append('    %s = %s.array([%s])' % (oname, mod, ', '.join(ex.to_py(e, names, mod) for e in elems)))
+    for oname, shape, elems in c['outs']:
+        shape = tuple(shape)
+        if len(shape) == 0:
+            lines.append('    %s = %s' % (oname, ex.to_py(elems[0], names, mod)))
+        else:
+            lines.append('    %s = %s.array([%s]).reshape(%r)' % (
+                oname, mod, ', '.join(ex.to_py(e, names, mod) for e in elems), shape))
         rets.append(oname)
+    if c['comp'] == 'jaximp' and len(rets) > 1:
+        # residuals are not outputs: return them as expressions so that no output-name mapping is implied
+        rets = ['jnp.asarray(%s)' % r for r in rets]
     lines.append('    return %s' % (', '.join(rets) if len(rets) > 1 else rets[0]))
     return '\n'.join(lines) + '\n'
+
+
+def ones(shape):
+    return np.ones(tuple(shape)) if len(shape) else 1.0
 
 
 def build(c, colored):
@@ -61,14 +89,14 @@ def build(c, colored):
     if kind in ('efunc', 'ifunc'):
         exec(source(c, mod), ns)
         f = omf.wrap(ns['f'])
-        for name, size in c['invars']:
-            f = f.add_input(name, shape=size, val=np.ones(size))
+        for name, shape in c['invars']:
+            f = f.add_input(name, shape=tuple(shape), val=ones(shape))
         if kind == 'efunc':
-            for oname, elems in c['outs']:
-                f = f.add_output(oname, shape=len(elems))
+            for oname, shape, elems in c['outs']:
+                f = f.add_output(oname, shape=tuple(shape))
         else:
-            for (sname, size), (oname, elems) in zip(c['states'], c['outs']):
-                f = f.add_output(sname, shape=size, resid=oname, val=np.ones(size))
+            for (sname, shape), (oname, _, elems) in zip(c['states'], c['outs']):
+                f = f.add_output(sname, shape=tuple(shape), resid=oname, val=ones(shape))
         f = f.declare_partials(of='*', wrt='*', method=method)
         if colored:
             f = f.declare_coloring(wrt='*', method=method, show_summary=False, show_sparsity=False, min_improve_pct=0.)
@@ -76,14 +104,23 @@ def build(c, colored):
         return comp
     base = 'om.JaxExplicitComponent' if kind == 'jaxexp' else 'om.JaxImplicitComponent'
     src = ['class JC(%s):' % base, '    def setup(self):']
-    for name, size in c['invars']:
-        src.append('        self.add_input(%r, val=np.ones(%d))' % (name, size))
+    for name, shape in c['invars']:
+        src.append('        self.add_input(%r, shape=%r)' % (name, tuple(shape)))
     if kind == 'jaxexp':
-        for oname, elems in c['outs']:
-            src.append('        self.add_output(%r, val=np.ones(%d))' % (oname, len(elems)))
+        for oname, shape, elems in c['outs']:
+            src.append('        self.add_output(%r, shape=%r)' % (oname, tuple(shape)))
     else:
-        for sname, size in c['states']:
-            src.append('        self.add_output(%r, val=np.ones(%d))' % (sname, size))
+        for sname, shape in c['states']:
+            src.append('        self.add_output(%r, shape=%r)' % (sname, tuple(shape)))
+    if c.get('sparse') is not None:
+        src.append('    def setup_partials(self):')
+        if not c['sparse']:
+            src.append('        pass')
+        for of, wrt, rows, cols in c['sparse']:
+            if rows is None:
+                src.append('        self.declare_partials(%r, %r)' % (of, wrt))
+            else:
+                src.append('        self.declare_partials(%r, %r, rows=%r, cols=%r)' % (of, wrt, rows, cols))
     body = source(c, 'jnp', fname='compute_primal', self_arg=True)
     src += ['    ' + ln for ln in body.splitlines()]
     # the jax components read the source of compute_primal (inspect.getsource): the class must live in a file
@@ -94,7 +131,6 @@ def build(c, colored):
         fh.write('import numpy as np\nimport jax.numpy as jnp\nimport openmdao.api as om\n\n' + '\n'.join(src) + '\n')
     if os.getcwd() not in sys.path:
         sys.path.insert(0, os.getcwd())
-    import importlib
     comp = importlib.import_module(modname).JC()
     if colored:
         comp.declare_coloring(wrt='*', method='jax', show_summary=False, show_sparsity=False, min_improve_pct=0.)
@@ -105,13 +141,13 @@ def run(c, colored):
     comp = build(c, colored)
     p = om.Problem()
     p.model.add_subsystem('c', comp, promotes=['*'])
-    p.setup(force_alloc_complex=True)
+    p.setup(force_alloc_complex=True, mode=c.get('mode', 'auto'))
     p.final_setup()
     x = [float(ex.fr(v)) for v in c['x']]
     names, vars_ = layout(c)
     nin = len(c['invars'])
-    for k, (name, size, o) in enumerate(vars_):
-        arr = np.array(x[o:o + size])
+    for k, (name, shape, o) in enumerate(vars_):
+        arr = np.array(x[o:o + size(shape)]).reshape(shape)
         if k < nin:
             comp._inputs[name] = arr
         else:
@@ -124,7 +160,7 @@ def run(c, colored):
     else:
         comp.run_solve_nonlinear()
         vec = comp._outputs
-        rownames = [o for o, _ in c['outs']]
+        rownames = [o[0] for o in c['outs']]
     comp.run_linearize()
     outs = []
     for n in rownames:
@@ -135,13 +171,14 @@ def run(c, colored):
     ro = 0
     for n in rownames:
         rsz = int(np.asarray(vec[n]).size)
-        for name, size, o in vars_:
+        for name, shape, o in vars_:
             sj = subjacs.get(('c.' + n, 'c.' + name))
             if sj is not None:
-                J[ro:ro + rsz, o:o + size] = np.asarray(sj.todense()).real
+                J[ro:ro + rsz, o:o + size(shape)] = np.asarray(sj.todense()).real
         ro += rsz
     used = comp._coloring_info.coloring is not None if colored else False
-    return outs, J, used
+    direction = comp.best_partial_deriv_direction()
+    return outs, J, used, direction
 
 
 def close(a, b):
@@ -150,11 +187,25 @@ def close(a, b):
 
 def handle(c):
     kind = '%s:%s%s' % (c['comp'], c['method'], ':colored' if c['colored'] else '')
+    if c.get('sparse') is not None:
+        kind += ':rowscols'
+    if c.get('sig_order'):
+        kind += ':sigorder'
+    if c.get('mode', 'auto') != 'auto':
+        kind += ':mode=' + c['mode']
+    if any(len(s) != 1 for _, s in c['invars'] + c.get('states', [])) or any(len(o[1]) != 1 for o in c['outs']):
+        kind += ':nd'
     if c['method'] == 'jax' and not HAVE_JAX:
         return {'res': '__none__', 'ok': True, 'msg': '', 'sig': kind + ':nojax', 'kind': kind + ':nojax'}
     x = [float(ex.fr(v)) for v in c['x']]
-    outs, J, _ = run(c, False)
-    elems = [e for _, es in c['outs'] for e in es]
+    try:
+        outs, J, _, direction = run(c, False)
+    except Exception as e:   # noqa
+        import traceback
+        return {'res': '__none__', 'ok': False, 'sig': kind + ':raised', 'kind': kind + ':raised',
+                'msg': 'the component raised %s: %s\n%s' % (type(e).__name__, str(e)[:300], traceback.format_exc()[-700:])}
+    kind += ':' + direction
+    elems = [e for o in c['outs'] for e in o[2]]
     ok, msg = True, ''
     if len(outs) != len(elems):
         ok, msg = False, '%d output entries for %d element formulas' % (len(outs), len(elems))
@@ -171,7 +222,13 @@ def handle(c):
                 break
     used = False
     if ok and c['colored']:
-        outs_c, Jc, used = run(c, True)
+        try:
+            outs_c, Jc, used, _ = run(c, True)
+        except Exception as e:   # noqa
+            import traceback
+            return {'res': '__none__', 'ok': False, 'sig': kind + ':colored-raised', 'kind': kind + ':colored-raised',
+                    'msg': 'with declare_coloring the component raised %s: %s\n%s' % (
+                        type(e).__name__, str(e)[:300], traceback.format_exc()[-700:])}
         for i in range(len(elems)):
             if not close(outs_c[i], outs[i]):
                 ok, msg = False, 'coloured run: output[%d] = %r vs %r' % (i, outs_c[i], outs[i])
